@@ -3,7 +3,7 @@
    [dur_decode_pinned], [hex2rgb_pinned] mirror the pinned code).  Strings are lists of code points. *)
 From Coq Require Import List ZArith NArith Reals. Import ListNotations.
 From Flocq Require Import Core.
-Require Import Codec Codecproof CodecDurproof CodecDateproof CodecColorproof CodecFloat Gen_Css Typed CodecUnit CodecUnitproof.
+Require Import Codec Codecproof CodecDurproof CodecDateproof CodecIsoproof CodecColorproof CodecFloat Gen_Css Typed CodecUnit CodecUnitproof.
 
 (* ---------------------------------------------------------------- Duration *)
 (* decode inverts encode on every whole-second duration, either sign, no bound *)
@@ -90,6 +90,22 @@ Example datetime_example :
   let d := mkdt 2024 2 29 23 59 59 123000 (Some 0%Z) in
   valid_dt d = true /\ datetime_encode d = [50;48;50;52;45;48;50;45;50;57;84;50;51;58;53;57;58;53;57;46;49;50;51;48;48;48;90]%N.
 Proof. split; reflexivity. Qed.
+
+(* repaired Date.decode / DateTime.decode (fixes/F73: anchored regular expression before fromisoformat): a value is returned exactly for
+   the strings of the ODF date / dateTime forms ([iso_denotes]: YYYY-MM-DD, or YYYY-MM-DDTHH:MM:SS[.f+][Z|+-HH:MM[:SS[.f+]]] with calendar,
+   clock and offset ranges), and it is the value the string denotes (fraction read to the microsecond) *)
+Theorem datetime_decode_sound : forall t d, datetime_decode t = Some d -> iso_denotes t d.
+Proof. exact parse_iso_sound. Qed.
+Print Assumptions datetime_decode_sound.
+Theorem datetime_decode_complete : forall t d, iso_denotes t d -> datetime_decode t = Some d.
+Proof. exact parse_iso_complete. Qed.
+Print Assumptions datetime_decode_complete.
+Theorem date_decode_sound : forall t d, date_decode t = Some d -> iso_denotes t d.
+Proof. exact parse_iso_sound. Qed.
+Print Assumptions date_decode_sound.
+Example iso_example : iso_denotes [50;48;50;52;45;48;49;45;51;49;84;49;48;58;48;48;58;48;48;46;53;43;48;53;58;51;48]%N   (* 2024-01-31T10:00:00.5+05:30 *)
+                                  (mkdt 2024 1 31 10 0 0 500000 (Some 19800000000%Z)).
+Proof. apply parse_iso_sound. reflexivity. Qed.
 
 (* ---------------------------------------------------------------- Boolean *)
 Theorem bool_roundtrip : forall b : bool, bool_decode (bool_encode b) = Some b /\ bool_lexical (bool_encode b) = true.
